@@ -33,6 +33,13 @@ def compare(op, impl, model, rep):
                 "content": "a handler saw method / Meta / fields other than the model of marshal-unmarshal gives (theorems C10_order_once, C10_custom_delivery)",
                 "shape": "trace shape"}[_first_diff(impl, model)]
         return "VIOLATES: " + what
+    if c == "incall.hcall":
+        it, mt = impl.get("trace", []), model.get("trace", [])
+        strip = lambda t: [{k: v for k, v in e.items() if k != "by"} for e in t]
+        if strip(it) == strip(mt):
+            return ("VIOLATES: after a registration history a notification was handled by another handler instance than the one of the "
+                    "last Register for its method (theorems C10_last_registration_wins, C10_history_dispatch)")
+        return "VIOLATES: call after a registration history: " + _first_diff({"trace": strip(it)}, {"trace": strip(mt)}) + " (theorem C10_history_dispatch)"
     if c == "incall.read":
         return "client read loop differs from the model on a scripted stream (" + _first_diff(impl, model) + ")"
     if c == "incall.ids":
